@@ -218,3 +218,114 @@ def manifest_query(path: str, which: int) -> bool:
         return done(pred_ok(m.q, "//manifest:file-entry[attribute::manifest:full-path=", path, "]"))
     m.get_media_type(path)
     return done(pred_ok(m.q, "//manifest:file-entry[attribute::manifest:full-path=", path, "]/attribute::manifest:media-type"))
+
+
+# ---- lookups whose query names the identifier twice, or that live outside Body ---------------------
+def pred2_ok(q, p1, name, mid, suffix):
+    """q == p1 + <expr = name> + mid + <expr = name> + suffix"""
+    if q is None:
+        return False
+    dq = '"' in name
+    sq = "'" in name
+    if not dq and q == p1 + '"' + name + '"' + mid + '"' + name + '"' + suffix:
+        return True
+    if not sq and q == p1 + "'" + name + "'" + mid + "'" + name + "'" + suffix:
+        return True
+    if not q.startswith(p1):
+        return False
+    r = eval_string_expr(q, len(p1))
+    if r is None or r[0] != name or not q.startswith(mid, r[1]):
+        return False
+    r2 = eval_string_expr(q, r[1] + len(mid))
+    return r2 is not None and r2[0] == name and q[r2[1]:] == suffix
+
+
+class CapRef(E.Element):
+    """a reference-mark-start whose name is given and whose xpath() records the query"""
+
+    def __init__(self, name):
+        self._name = name
+        self.q = None
+
+    name = property(lambda self: self._name)
+
+    def xpath(self, q):
+        self.q = q
+        return []
+
+
+class CapDoc:
+    """stands in for a Document: `body` is the recording Body"""
+
+    def __init__(self):
+        self.body = Cap()
+
+
+TWICE = [
+    (lambda c, s: c.get_reference_mark(name=s), "descendant::text:reference-mark-start[@text:name=", "] | descendant::text:reference-mark[@text:name=", "]"),
+    (lambda c, s: c.get_text_change(idx=s), "descendant::text:change-start[@text:change-id=", "] | descendant::text:change[@text:change-id=", "]"),
+]
+ONCE_MORE = [
+    (lambda c, s: c.get_references(name=s), "descendant::text:reference-ref[@text:ref-name=", "]"),
+]
+
+
+K2 = int(os.environ.get("VERIF_K2", "0"))  # which of these lookups (concrete per process)
+
+
+def lookup_twice(name: str) -> bool:
+    """
+    pre: 1 <= len(name) <= N_ANY and all(32 <= ord(ch) < 55296 for ch in name)
+    post: _
+    """
+    # union queries: the identifier filters BOTH branches (so that no mark of another name can match)
+    c = Cap()
+    if K2 < len(TWICE):
+        fn, p1, mid, suffix = TWICE[K2]
+        fn(c, name)
+        return done(pred2_ok(c.q, p1, name, mid, suffix))
+    fn, prefix, suffix = ONCE_MORE[K2 - len(TWICE)]
+    fn(c, name)
+    return done(pred_ok(c.q, prefix, name, suffix))
+
+
+def referenced_text_query(name: str) -> bool:
+    """
+    pre: 1 <= len(name) <= N_ANY and all(32 <= ord(ch) < 55296 for ch in name)
+    post: _
+    """
+    # ReferenceMarkStart/End.referenced_text(): both bounds of the text range carry the mark's own name
+    from odfdo.reference import ReferenceMarkEnd, ReferenceMarkStart
+    ok = True
+    for cls in (ReferenceMarkStart, ReferenceMarkEnd):
+        c = CapRef(name)
+        cls.referenced_text(c)
+        ok = ok and pred2_ok(c.q, "//text()[preceding::text:reference-mark-start[@text:name=", name, "] and following::text:reference-mark-end[@text:name=", "]]")
+    return done(ok)
+
+
+def document_table_query(name: str) -> bool:
+    """
+    pre: 1 <= len(name) <= N_ANY and all(32 <= ord(ch) < 55296 for ch in name)
+    post: _
+    """
+    # Document-level table lookups (get_table_style, set_table_displayed, ...) resolve a str argument as a
+    # table NAME, whatever it looks like (all digits included)
+    from odfdo.document import Document
+    d = CapDoc()
+    Document._get_table(d, name)
+    return done(pred_ok(d.body.q, "descendant::table:table[@table:name=", name, "]"))
+
+
+def file_entry_attrs(path: str, media: str) -> bool:
+    """
+    pre: 1 <= len(path) <= 2 and len(media) <= 1 and all(32 <= ord(ch) < 55296 for ch in path + media)
+    post: _
+    """
+    # Manifest.make_file_entry: the entry carries exactly the path and the media type it was given, whatever
+    # characters they hold (&, <, quotes): nothing is interpreted as markup
+    import symsupport  # noqa: F401  (asserts that the lxml model is in use)
+    e = Manifest.make_file_entry(path, media)
+    n = e._Element__element
+    M = "{urn:oasis:names:tc:opendocument:xmlns:manifest:1.0}"
+    return done(n.tag == M + "file-entry" and n.attrib.get(M + "full-path") == path and n.attrib.get(M + "media-type") == media and len(n._children) == 0)
